@@ -262,6 +262,7 @@ def expected_results(term):
 
 def make_judge(chk: Check):
     per_term: dict = {}
+    per_text: dict = {}
 
     def judge(case: Case, rec: dict, probe=None) -> list[Viol]:
         viols: list[Viol] = []
@@ -308,12 +309,16 @@ def make_judge(chk: Check):
                     viols.append(Viol("type-mismatch", where, {"annotation": g["src"], "expected": tt.show_nf(exp1), "stub": st.render() if st else None, "sig": sigkey}))
             chk.case_ok(f"{pos}:{sigkey}", ident=(pos, g["src"], bool(case.opts)))
             if got_nfs is not None:
-                per_term.setdefault(g["src"], {})[pos] = got_nfs
+                per_term.setdefault(g["src"], {})[pos if pos != "inherited" else f"inherited:{g['name'][:4]}"] = got_nfs
+            if pos in ("param", "ctor", "param-among-others", "inherited") and st is not None:
+                # the written form too: one annotation, one text, wherever (and however often) it is rendered
+                per_text.setdefault((g["src"], bool(case.opts)), {})[pos if pos != "inherited" else f"inherited:{g['name'][:4]}"] = st.render()
             if tt.depth(term) >= 3:
                 chk.sample({"position": pos, "annotation": g["src"], "stub": d.params[0].type.render() if pos in ("param", "ctor") and d.params and d.params[0].type else "..."}, limit=4)
         return viols
 
     judge.per_term = per_term
+    judge.per_text = per_text
     return judge
 
 
@@ -329,6 +334,9 @@ def main(tier: str, seed: int) -> int:
             npos += 1
             if len({repr(v) for v in d.values()}) > 1:
                 chk.violation(Viol("position-dependent", "positions", {"annotation": src, "forms": {k: tt.show_nf(v) for k, v in d.items()}}))
+    for (src, _nc), d in judge.per_text.items():
+        if len(set(d.values())) > 1:
+            chk.violation(Viol("position-dependent-text", "parameter-positions", {"annotation": src, "texts": d}))
     chk.extra["terms_compared_across_positions"] = npos
     chk.extra["exhaustive_parts"] = f"{cases[0].meta['n_exhaustive_terms']} terms: all leaves, every unary constructor over every leaf, every binary constructor over the small leaf set squared"
     chk.extra["gated_features"] = sorted(gated_features())
